@@ -99,7 +99,9 @@ RefusalChecks(ev) ==
 NextWstart(ev, t) ==
   IF ev.res # "ok" THEN wstart
   ELSE IF ev.ev = "newepoch" THEN [wstart EXCEPT !.aw = t.aw]
-  ELSE IF ev.ev = "snapshot" THEN [wstart EXCEPT !.gw = t.gw, !.ep = t.epoch]
+  \* the epoch's snapshot is the specification's own: the FIRST one taken in the epoch (a snapshot taken again in the same
+  \* epoch must not become the yardstick of the shares it distorts)
+  ELSE IF ev.ev = "snapshot" THEN (IF wstart.ep = t.epoch THEN wstart ELSE [wstart EXCEPT !.gw = t.gw, !.ep = t.epoch])
   ELSE wstart
 ShareChecksX(ev, t, lc) ==
   LET w == NextWstart(ev, t) IN
